@@ -182,14 +182,28 @@ type env struct {
 	tc       pb.TasksClient
 }
 
+// freeAddr hands out loopback ports from a range private to this process (several shards run at once).
+var portNext int
+
 func freeAddr() string {
-	l, err := net.Listen("tcp", "127.0.0.1:0")
-	if err != nil {
-		panic(err)
+	base := 41000 + (os.Getpid()%1000)*20
+	for i := 0; i < 2000; i++ {
+		p := base + portNext%20
+		portNext++
+		if portNext%20 == 0 {
+			base += 20 * 1001
+			if base > 64000 {
+				base = 41000 + (os.Getpid()%1000)*20
+			}
+		}
+		l, err := net.Listen("tcp", fmt.Sprintf("127.0.0.1:%d", p))
+		if err != nil {
+			continue
+		}
+		l.Close()
+		return fmt.Sprintf("127.0.0.1:%d", p)
 	}
-	a := l.Addr().String()
-	l.Close()
-	return a
+	panic("no free port")
 }
 
 func startEnv() *env {
